@@ -32,12 +32,22 @@ Proof.
   cbn [snake_aux]. destruct (is_upper c); [discriminate|]. rewrite IH; [reflexivity|exact Hr].
 Qed.
 
+(* `#` is not a snake_case character, so a snake_case name is not a raw identifier *)
+Lemma strip_raw_snake cs : snake_chars_ok false cs = true -> strip_raw cs = cs.
+Proof.
+  intros H. destruct cs as [|a [|b rest]]; try reflexivity. unfold strip_raw.
+  destruct (Ascii.eqb_spec a "r"%char) as [->|_]; [|reflexivity].
+  destruct (Ascii.eqb_spec b "#"%char) as [->|_]; [|reflexivity].
+  cbn in H. discriminate.
+Qed.
+
 (* a snake_case event name is its own method name *)
 Lemma snake_id s : is_snake_case s = true -> to_snake_case s = s.
 Proof.
   unfold is_snake_case, to_snake_case. intros H.
   destruct (list_ascii_of_string s) as [|c r] eqn:E; [discriminate|].
   destruct (is_us c || opt_test is_us (hd_error (rev (c :: r)))); [discriminate|].
+  rewrite (strip_raw_snake _ H).
   apply snake_chars_no_upper in H. rewrite (snake_aux_no_upper _ _ H), <- E.
   apply string_of_list_ascii_of_string.
 Qed.
